@@ -53,7 +53,7 @@ THEOREMS = [
     "C34_one_record_per_dispatch", "C34_schema_valid", "C34_status_matches_client", "C34_full_message",
     "C34_error_message_nonempty", "C34_stream_id_shared", "C34_stream_id_distinct",
 ]
-TIE = ["schema_tie", "shape_tie", "emit_keys_tie", "sentinel_tie", "telemetry_tie", "C34_source_schema_valid", "C34_source_status_matches_client", "C34_source_full_message"]
+TIE = ["schema_tie", "shape_tie", "emit_keys_tie", "sentinel_tie", "telemetry_tie", "recover_tie", "C34_source_schema_valid", "C34_source_status_matches_client", "C34_source_full_message"]
 REFUTED = ["C34_old_empty_message_schema_invalid", "C34_old_http_message_truncated", "C34_old_sentinel_stream_invalid", "C34_old_escape_logged_ok"]
 
 HDR = "From Coq Require Import List NArith ZArith Bool.\nFrom VGI Require Import Regex M_Wire M_AccessLog.\nImport ListNotations.\nOpen Scope N_scope.\n"
@@ -260,7 +260,8 @@ def run(ctx: Any) -> None:
 
     ctx.rule = (
         "case = one history (1-4 items: script on an interpreter program | __describe__ | raw refused request) x transport {http, pipe} "
-        "x access-logger level {INFO, DEBUG} x formatter cap {1 MiB, 1100, 300} x http max_response_bytes {None, 1}; scenarios cover every "
+        "x access-logger level {INFO, DEBUG} x formatter cap {1 MiB, 1100, 300} x http max_response_bytes {None, 1} x http call-state cache "
+        "{warm, disabled, cold second app sharing token_key, one-entry cache evicted before every continuation}; scenarios cover every "
         "model arm and message class, the rest is seeded random; distinct by (transport, cfg, items); non-trivial = at least one request was dispatched"
     )
     histories: list[tuple[str, list[Any]]] = scenario_items()
@@ -279,6 +280,7 @@ def run(ctx: Any) -> None:
         ctx.tally("transport", kind)
         ctx.tally("level", "DEBUG" if debug else "INFO")
         ctx.tally("cap", cap)
+        ctx.tally("call_state_cache", (cfg or {}).get("c34_cache", "warm") if kind == "http" else "n/a")
         repl_base = {"transport": kind, "http_cfg": cfg, "debug": debug, "formatter_cap": cap, "items": items}
         tiny = bool(cfg and cfg.get("max_response_bytes") is not None)
         # ---- request list (what was dispatched) -----------------------------
@@ -382,6 +384,8 @@ def run(ctx: Any) -> None:
                     path = "/".join(str(p) for p in err.absolute_path)
                     if "'error_message' is a required property" in err.message:
                         key = "schema-invalid:error-record-without-error_message"
+                    elif "'stream_id' is a required property" in err.message and rec.get("truncated") != "record_too_large":
+                        key = "schema-invalid:stream-record-without-stream_id"
                     elif "'stream_id' is a required property" in err.message and rec.get("truncated") == "record_too_large":
                         key = "schema-invalid:sentinel-form-of-stream-record-without-stream_id"
                     else:
@@ -412,11 +416,12 @@ def run(ctx: Any) -> None:
                 if isinstance(rec.get("stream_id"), str):
                     sid_of_item.setdefault(rq["item"], set()).add(rec["stream_id"])
                 elif rec.get("method_type") == "stream" and rec.get("truncated") != "record_too_large":
-                    ctx.violation("stream-record-without-stream_id", "stream record lacks stream_id", repl)
+                    # no id at all is a different "id" than the one the stream's other records carry
+                    sid_of_item.setdefault(rq["item"], set()).add("<absent>")
         for item, ids in sid_of_item.items():
             if len(ids) > 1:
                 ctx.violation("stream-id-not-shared-by-records-of-one-stream", f"{len(ids)} stream ids in one stream", {**repl_base, "item": item, "ids": sorted(ids)})
-        all_ids = [frozenset(v) for v in sid_of_item.values()]
+        all_ids = [frozenset(v - {"<absent>"}) for v in sid_of_item.values() if v - {"<absent>"}]
         if len(set().union(*all_ids)) < len(all_ids) if all_ids else False:
             ctx.violation("stream-id-reused-across-streams", "two streams share a stream id", repl_base)
         ctx.case([kind, cfg, debug, cap, items], nontrivial=any(dispatched))
@@ -458,6 +463,12 @@ def run(ctx: Any) -> None:
                 cfgs: list[dict[str, Any] | None] = [None]
                 if kind == "http" and (ctx.tier != "quick" or hi % 4 == 0):
                     cfgs.append({"max_response_bytes": 1})
+                has_stream = any(it[0] == "script" and it[2][0] != "unary" for it in items)
+                if kind == "http" and has_stream and (debug, cap) == combos[0]:
+                    # continuations that MISS the call-state cache: the stream id must come from the reopened call token
+                    modes = ["nocache", "cold", "evict"]
+                    for mode in (modes if ctx.tier != "quick" else [modes[hi % 3]]):
+                        cfgs.append({"c34_cache": mode})
                 for cfg in cfgs:
                     try:
                         one(kind, cfg, debug, cap, items)
